@@ -1,2 +1,3 @@
 pub mod bank;
 pub mod ratio;
+pub mod chain;
